@@ -91,6 +91,8 @@ impl World {
     pub async fn new(seed: u64, cfg: RunCfg, run_dir: PathBuf) -> R<World> {
         std::fs::create_dir_all(&run_dir)?;
         klukai_types::verif::lock_trace_start();
+        let _ = klukai_types::verif::applied_take();
+        klukai_types::verif::gates_clear();
         let n = cfg.nodes;
         let actors: Vec<ActorId> = (0..n).map(|i| seeded_actor(seed, i)).collect();
         let mut site_names = BTreeMap::new();
@@ -840,7 +842,18 @@ impl World {
                 vm.last_seqs.insert(last_seq.0);
                 vm.ranges.insert(seqs.start().0..=seqs.end().0);
                 for ch in changes {
-                    vm.changes.entry(ch.seq.0).or_insert_with(|| ch.clone());
+                    // first one wins, except that a column change replaces a row marker
+                    // relayed with the same seq (mirrors the buffer table's conflict rule)
+                    match vm.changes.get(&ch.seq.0) {
+                        None => {
+                            vm.changes.insert(ch.seq.0, ch.clone());
+                        }
+                        Some(old) if old.cid.is_crsql_sentinel() && !ch.cid.is_crsql_sentinel() => {
+                            self.stats.probe("model.marker-and-column-change-share-a-seq");
+                            vm.changes.insert(ch.seq.0, ch.clone());
+                        }
+                        Some(_) => {}
+                    }
                 }
                 self.stats.probe("model.buffered-chunk");
                 {
@@ -1170,11 +1183,19 @@ impl World {
             )?;
             let am = self.model[n].actors.get_mut(&a).unwrap();
             for vm in am.versions.values_mut() {
-                if vm.stale_rows && vm.state != VState::Partial && !vm.covered_some() {
+                if vm.stale_rows && vm.state != VState::Partial {
+                    // rows not cleared yet: the start-up path loads the version as buffered
+                    // again. Covered -> it is simply re-scheduled and re-applied (harmless, and
+                    // chunks arriving before that can still extend it); not covered -> it is
+                    // advertised as partial again (the recorded finding).
+                    if !vm.covered_some() {
+                        hits += 1;
+                    } else {
+                        self.stats.probe("model.applied-version-reloaded-as-buffered");
+                    }
                     vm.state = VState::Partial;
                     vm.stale_rows = false;
                     vm.reverted = true;
-                    hits += 1;
                 }
             }
             // versions above everything that is durably recorded are forgotten
